@@ -271,9 +271,10 @@ Definition inv_b (st : pst) : bool :=
   && qsafeb d && match d_rq d with None => true | Some _ => false end
   && win_okb d (p_win st) && len_okb d (d_len d) && within (d_rp d) (d_len d)
   && lay_okb m (hm_layout m) (cur_len st)
-  (* closed: nothing pending, and the header on disk carries the region counts in memory *)
+  (* closed: nothing pending, and the header on disk is the one in memory *)
   && (p_open st || (match p_win st with [] => true | _ => false end
-                    && bytes_eqb (layout_at (dh st)) (hm_layout m) && negb (p_rfs st))).
+                    && bytes_eqb (layout_at (dh st)) (hm_layout m)
+                    && bytes_eqb (dQ d) (hm_slot m (negb (hm_prim m))) && negb (p_rfs st))).
 
 (* ---------- recovery: TransactionalMemory::new + Database::new on a crash image ---------- *)
 
@@ -342,13 +343,13 @@ Definition rec_okb (d : dsum) (o : roracle) : bool :=
 
 (* ---------- the same protocol with its ordering broken (for negative examples) ---------- *)
 
-(* 2PC without the intermediate sync_data *)
+(* 2PC without the intermediate sync_data: `if two_phase { flush }` gone, so the two header writes coalesce
+   in the write buffer and ONE header write carries the new slot, the flipped primary bit and the 2PC flag *)
 Definition run_commit_no_mid_sync (a : acc) (q : bytes) (rng : list range) (pages : list (N * bytes)) : acc :=
   let m := p_mem (a_st a) in
   let sec := negb (hm_prim m) in
-  let m1 := set_slot m sec q in
-  let m2 := promote m1 true in
-  let a1 := a_issue a (page_writes pages ++ [hdr_write m1; hdr_write m2]) in
+  let m2 := promote (set_slot m sec q) true in
+  let a1 := a_issue a (page_writes pages ++ [hdr_write m2]) in
   a_mem (a_sync a1 (mkDsum (enc_hdr m2) (cur_len (a_st a1)) sec rng true None)) m2 false true.
 
 (* 1PC with the shrinking set_len issued before the final sync_data *)
